@@ -1,5 +1,5 @@
 (* C18 - Search info lines are well-formed and within score bounds (model-level part). *)
-From Walleye Require Import Model.Search Proofs.MateText Proofs.RootInfo.
+From Walleye Require Import Model.Search Proofs.MateText Proofs.RootInfo Proofs.RootOrder.
 Open Scope Z_scope.
 
 (* the shape of the line: fixed keywords in fixed order around the numbers *)
@@ -31,7 +31,15 @@ Theorem C18_reported_scores_in_range : forall zt osort k fuel,
 Proof. exact reported_scores_in_range. Qed.
 
 Print Assumptions C18_reported_scores_in_range.
+(* the reports of one search, newest first: every report lies strictly above all earlier ones - a later depth, or the
+   same depth with a strictly larger score; so D never decreases and scores strictly increase within a depth,
+   for every position, record, ordering oracle and expiry index *)
+Theorem C18_reports_are_ordered : forall zt osort k fuel b t ev s,
+  get_best_move zt osort k fuel b t = Ok (ev, s) -> well_ordered (rev ev).
+Proof. exact reports_well_ordered. Qed.
+
 Print Assumptions C18_info_line_shape.
+Print Assumptions C18_reports_are_ordered.
 Print Assumptions C18_cp_inside_window.
 Print Assumptions C18_mate_number_nonzero.
 Print Assumptions C18_abort_value_never_cp.
